@@ -356,8 +356,16 @@ class MetadataManager:
                     f"Version hint write failed ambiguously: {e}"
                 ) from e
 
+        from .storage_backend import DirectoryNotPersistedError
+
         try:
             self.storage.write_file(self.HINT_PATH, content)
+        except DirectoryNotPersistedError as e:
+            # The flip IS visible; only its durability is unknown. Rolling back
+            # would delete files the visible version references.
+            raise AmbiguousCommitError(
+                f"Version hint was flipped but its directory entry could not be persisted: {e}"
+            ) from e
         except Exception as e:
             if self.storage.atomic_write_failures:
                 # Guaranteed not visible - clean failure, caller may roll back.
